@@ -28,7 +28,6 @@ import os
 import shutil
 import sys
 import types
-from dataclasses import asdict, is_dataclass
 
 from mc.runner import Run, Stats, HarnessError
 
@@ -1157,7 +1156,7 @@ def _scripted_plan(name, text):
 
 def turn_scenarios(thorough):
     rag = [0, 1, 2, 5]
-    cache = [True, False]
+    cache = [True, False, "no-t4"]   # "no-t4": orchestrator cache on and T4/apply off, so turn 2 is a cache hit
     tokens = [1, 2, 256] if thorough else [1, 256]
     maxops = [1, 2, 8] if thorough else [1, 8]
     policy = [None, {"tau_high": 0.875, "tau_low": 0.0}, {"tau_high": 0.5, "tau_low": 0.5}] if thorough else [None, {"tau_high": 0.875, "tau_low": 0.0}]
@@ -1218,7 +1217,7 @@ def run_scenario(sc, scratch):
     os.environ["CLEMATIS_SNAPSHOT_DIR"] = snap
     raw = {"t1": {"decay": {"mode": "exp_floor", "rate": 0.6, "floor": 0.05}},
            "t3": {"max_rag_loops": min(sc["rag"], 1), "tokens": sc["tokens"], "max_ops_per_turn": sc["maxops"]},
-           "t4": {"snapshot_dir": snap, "cache": {"enabled": bool(sc["cache"])}}}
+           "t4": {"snapshot_dir": snap, "cache": {"enabled": bool(sc["cache"])}, "enabled": sc["cache"] != "no-t4"}}
     if sc["policy"] is not None:
         raw["t3"]["policy"] = dict(sc["policy"])
     if sc["template"] is not None:
@@ -1424,19 +1423,14 @@ def run(run: Run) -> None:
     # (A)+(B)
     params = list(bundle_params(th))
     run.notes["bundles"] = len(params)
-    import time as _t
-    t0 = _t.time()
     run.pmap(_bundle_worker, params, extra=(th,), chunks=min(len(params), 251))
-    run.notes["wall_bundles_s"] = round(_t.time() - t0, 1); t0 = _t.time()
     # (C)
     scs = list(turn_scenarios(th))
     run.notes["turn_scenarios"] = len(scs)
     run.pmap(_turn_worker, scs, extra=(run.scratch,), chunks=min(len(scs), 64))
-    run.notes["wall_turns_s"] = round(_t.time() - t0, 1); t0 = _t.time()
     # (D)
     items = san_items(th)
     run.pmap(_san_worker, items, chunks=min(len(items), 16 * 24 - 1))
-    run.notes["wall_sanitiser_s"] = round(_t.time() - t0, 1); t0 = _t.time()
     run.pmap(_gap_worker, list(range(len(FULL))))
     misc = [("nonstr", i) for i in range(len(NON_STRINGS))]
     misc += [("sp", o, r, False) for o in range(len(SP_OPS)) for r in range(len(SP_REF))] + [("sp", 0, 0, True)]
